@@ -16,6 +16,22 @@ TEXT = {
  'C05': ('AST()/printers = pruned derivation tree: proved for all well-nested forests (C05Ast), incl. equal spans and zero-width tokens; tied by T-run (SprintSyntaxTree, up/next walk).', 'as C01; strconv.Quote is a parameter of the model (compared as strings in the tie)'),
  'C06': ('memoisation invisible: every case run with memo on and off (real vs real, vs model with the memo table, vs spec).', 'as C01'),
  'C07': ('-noast: verdict equal to the default parser and to the spec; inline-action trace equal to the spec\'s reach-order trace with last capture.', 'as C01'),
+ 'C08': ('hygiene theorems about the emission (labels unique per function, dry and real pass number labels identically and print the same jumps without -switch) + the implementation-side validity oracle on every emitted file of both sweeps (go/parser inside peg, go build = parse + type-check, gofmt idempotence) under all eight option sets, plus streams the generator cannot produce (300/1200(+) rules, imports incl. alias/grouped/duplicate of a runtime import, header comments, control and non-ASCII literals, comments and braces inside actions).',
+         'Go type checker, go/parser, go/printer and gofmt are oracles of the tie, not modelled; no mechanised Go semantics is available offline.'),
+ 'C09': ('logic core proved for all schedules (Bernstein: threads with disjoint read/write footprints give a schedule-independent final state; no conflicting access), instantiated by kernel-decided disjointness of the footprints of the two analysis goroutines, which a go/ast+go/types translator re-extracts from tree/peg.go on every run (also: no map iteration, no package-level writes, no unknown constructs); dynamic validation with the race detector: concurrent Compiles, GOMAXPROCS 1/2/16, byte-identical outputs and warnings across repetitions and processes.',
+         'Go memory model (DRF => SC) and WaitGroup ordering assumed; extractor soundness assumed and validated by -race runs; determinism of the sequential rest of Compile is the Lean model of Compile tied by T-emit.'),
+ 'C12': ('C12_reset_like_fresh / C12_history_irrelevant: R holds from any post-Reset state (arbitrary stale token buffer), so a reused parser is indistinguishable from a fresh one; tie: histories on one instance x U in {uint16,uint32,uint64,uint} x Size in {unset,1,32768} against fresh parsers, plus the uint16 width probe (known finding F-C12-1).',
+         'integers are unbounded in the model (width is the known finding); slice capacity/growth invisible in the model (covered by the tie).'),
+ 'C13': ('C13_no_panic / C13_token_slices from R: no run ends in the panic outcome and all offsets are inside the rune sequence; tie: byte-level inputs (invalid UTF-8, NUL, non-BMP, U+10FFFF, 90000 runes) on generated grammars (real vs model vs spec) and on the shipped grammars (no panic, offsets in range).',
+         'as C01; for shipped grammars only the no-panic/offset oracle runs (their actions are arbitrary Go).'),
+ 'C14': ('product non-interference proved for all schedules and any number of instances (a step of instance i touches only component i), instantiated by kernel-decided facts re-extracted from generated code on every run (only package-level variable is the rul3s name table, never written; no goroutines); dynamic validation: 32 concurrent instances under the race detector equal sequential results.',
+         'as C09; callers are assumed not to share receivers or user fields between instances.'),
+ 'C16': ('Lean model of set.go transcribed case by case (sentinels, seven-way insertion); for every sequence of in-domain insertions: invariant, Has/Len/Copy/Union/Intersects/Complement/Equal/String equal the set-of-integers meaning, no panic; tie: exhaustive small sequences + random long ones, structural dumps and all query results compared with the real package, operands checked for mutation.',
+         'domain: 0 <= begin <= end < 2^31-1 (code points); aliasing is outside the value model (checked by the tie).'),
+ 'C17': ('C17_frontends_agree: any two emitted programs for peg.peg satisfying World agree on verdict and token list (instance of R), hence build the same tree; executed part: bootstrap.bash in a scratch copy reproduces peg.peg.go byte for byte, front ends regenerated under the four AST option sets agree with the checked-in one on shipped, generated and mutated texts (tree, warnings, emitted code), shipped grammars generate under -strict and their parsers agree across option sets on samples and mutations.',
+         'the byte-for-byte comparison is a finite computation that is executed, not proved; -noast front ends are not considered (a front end needs Execute).'),
+ 'C18': ('CLI model transcribed from main.go over a finite scenario table (18432 rows); exit 0 => complete parser at the requested destination, errors => non-zero + message, flags irrelevant, all by kernel decision over the whole table; tie: every abstract scenario realised by >= 3 concrete runs of the built binary (permission faults via unprivileged uid, /dev/full, injected close errors).',
+         'OS behaviour enters as abstract scenario classes; their concrete realisation is part of the tie.'),
  'C11': ('error token = first furthest non-empty attempted token (tie vs spec fold over attempted tokens); translatePositions/Error() proved equal to the 1-based line/column specification for all buffers and offsets (C11Err), no panic; tied by T-err on the current template text.', 'as C01'),
 }
 
